@@ -74,6 +74,34 @@ impl VM {
                 )));
             }
 
+            // verif hook H5: raw-access site log (inert unless verif_sites::enable(true))
+            #[cfg(vbxq_aelys_lang_verif)]
+            let verif_on = crate::verif_sites::on();
+            #[cfg(vbxq_aelys_lang_verif)]
+            let (verif_bl, verif_cl, verif_cl_true) = if verif_on {
+                let (bl, cl) = self.verif_true_lens(func_ref, bytecode_ptr, constants_ptr);
+                (
+                    if bl == usize::MAX { bytecode_len } else { bl },
+                    if cl == usize::MAX { constants_len } else { cl },
+                    cl,
+                )
+            } else {
+                (bytecode_len, constants_len, constants_len)
+            };
+            #[cfg(vbxq_aelys_lang_verif)]
+            macro_rules! verif_site {
+                ($id:expr, $idx:expr, $len:expr) => {
+                    if verif_on && !crate::verif_sites::ok($id, $idx, $len) {
+                        return Err(self.runtime_error(RuntimeErrorKind::InvalidBytecode(format!(
+                            "verif site oob id={} idx={} len={}",
+                            $id, $idx, $len
+                        ))));
+                    }
+                };
+            }
+            #[cfg(vbxq_aelys_lang_verif)]
+            verif_site!(crate::verif_sites::FETCH, ip, verif_bl);
+
             // Fetch instruction
             let instr = unsafe { *bytecode_ptr.add(ip) };
             ip += 1;
@@ -83,6 +111,25 @@ impl VM {
             // Get registers pointer (may change after resize, but we refresh it for calls)
             let mut regs_ptr = self.registers.as_mut_ptr();
             let regs_len = self.registers.len();
+            #[cfg(vbxq_aelys_lang_verif)]
+            if verif_on {
+                crate::verif::site(crate::verif_sites::SNAP_INSTR, instr as u64, base as u64);
+                crate::verif::site(crate::verif_sites::SNAP_CONST, constants_len as u64, verif_cl_true as u64);
+                crate::verif::site(crate::verif_sites::SNAP_UPREG, upvalues_len as u64, regs_len as u64);
+                crate::verif::site(crate::verif_sites::SNAP_BC, bytecode_len as u64, self.call_site_cache.len() as u64);
+            }
+            // register accesses: index against the live vector, and the cached pointer must be current
+            #[cfg(vbxq_aelys_lang_verif)]
+            macro_rules! verif_reg {
+                ($id:expr, $idx:expr) => {
+                    if verif_on {
+                        if regs_ptr as *const Value != self.registers.as_ptr() {
+                            verif_site!(crate::verif_sites::STALE_REGS, 1usize, 0usize);
+                        }
+                        verif_site!($id, $idx, self.registers.len());
+                    }
+                };
+            }
 
             // Bounds-checking macro - returns RuntimeError for out-of-bounds access
             macro_rules! check_reg {
@@ -103,6 +150,8 @@ impl VM {
                 ($idx:expr) => {{
                     let idx = $idx;
                     check_reg!(idx);
+                    #[cfg(vbxq_aelys_lang_verif)]
+                    verif_reg!(crate::verif_sites::REG_RD, idx);
                     // SAFETY: bounds checked above
                     unsafe { *regs_ptr.add(idx) }
                 }};
@@ -112,6 +161,8 @@ impl VM {
                 ($idx:expr) => {{
                     let idx = $idx;
                     check_reg!(idx);
+                    #[cfg(vbxq_aelys_lang_verif)]
+                    verif_reg!(crate::verif_sites::REG_RD, idx);
                     // SAFETY: bounds checked above
                     unsafe { &*regs_ptr.add(idx) }
                 }};
@@ -121,6 +172,8 @@ impl VM {
                 ($idx:expr, $val:expr) => {{
                     let idx = $idx;
                     check_reg!(idx);
+                    #[cfg(vbxq_aelys_lang_verif)]
+                    verif_reg!(crate::verif_sites::REG_WR, idx);
                     // SAFETY: bounds checked above
                     unsafe {
                         *regs_ptr.add(idx) = $val;
